@@ -37,6 +37,20 @@ def gen_scenario(seed, family="mixed"):
     if family.startswith("reuse"):
         return gen_reusable(seed, family)
     rnd = random.Random(f"scen/{family}/{seed}")
+    if family == "pickler":
+        mw = rnd.choice([1, 2])
+        nt = rnd.randint(2, 6)
+        u0 = [["create"]]
+        for k in range(nt):
+            if rnd.random() < 0.6:
+                u0.append(["setpickler", rnd.choice(["pickle", "cloudpickle"])])
+            u0.append(["submit", k])
+        if rnd.random() < 0.5:
+            u0.append(["setpickler", rnd.choice(["pickle", "cloudpickle"])])
+        if rnd.random() < 0.5:
+            u0.append(["shutdown", True, False])
+        return {"kind": "plain", "max_workers": mw, "timeout": rnd.choice([None, 5]), "tasks": [{"body": "ok"}] * nt,
+                "family": family, "users": [u0], "sched": {"p_timeout": 0.1, "p_crash": 0.0, "max_crashes": 0}}
     if family == "saturate":
         mw = rnd.choice([1, 2, 3])
         nt = mw + rnd.randint(0, 3)
